@@ -161,25 +161,30 @@ theorem baseFromFile_ok {fs : FS} {f ref : String} {S : KVs} (h : baseFromFile f
     fileServices fs f = some S ∧ lookup ref S ≠ none := by
   unfold baseFromFile at h
   unfold fileServices
-  split at h <;> try cases h
-  rename_i doc rerr hl
-  rw [hl]
-  split at h <;> try cases h
-  rename_i svcs hs
-  split at h <;> try cases h
-  rename_i x hx
-  cases rerr with
-  | true => simp at h
-  | false =>
-    simp only [Bool.false_eq_true, ↓reduceIte, Out.ok.injEq] at h
-    subst h
-    simp [hs, hx]
+  split at h
+  · cases h
+  · cases h
+  · cases h
+  · rename_i doc rerr hl
+    rw [hl]
+    split at h <;> try cases h
+    rename_i svcs hs
+    split at h <;> try cases h
+    rename_i x hx
+    cases rerr with
+    | true => simp at h
+    | false =>
+      simp only [Bool.false_eq_true, ↓reduceIte, Out.ok.injEq] at h
+      subst h
+      simp [hs, hx]
+  · split at h <;> try cases h
+    split at h <;> cases h
 
-theorem resolveBase_ok {E : Env} {name ref : String} {file : Option String} {S S' : KVs} {key : Key} {same : Bool}
-    (h : resolveBase E name ref file S = .ok (S', key, same)) :
+theorem resolveBase_ok {E : Env} {cur name ref : String} {file : Option String} {S S' : KVs} {key : Key} {same : Bool}
+    (h : resolveBase E cur name ref file S = .ok (S', key, same)) :
     baseMap E S ref file = some S' ∧ lookup ref S' ≠ none ∧
-    ((same = true ∧ S' = S ∧ file = none ∧ key = (E.mainFile, name)) ∨
-     (same = false ∧ ∃ f, file = some f ∧ fileServices E.fs f = some S' ∧ key = (f, name))) := by
+    ((same = true ∧ S' = S ∧ file = none ∧ key = (cur, name)) ∨
+     (same = false ∧ ∃ f, file = some f ∧ fileServices E.fs f = some S' ∧ key = (cur, name))) := by
   unfold resolveBase at h
   cases file with
   | none =>
@@ -199,15 +204,15 @@ theorem resolveBase_ok {E : Env} {name ref : String} {file : Option String} {S S
     | some x => simp
 
 /-- one unfolding of `applySvc` on a successful run -/
-theorem applySvc_ok_cases {E : Env} {fuel : Nat} {n : String} {cur : KVs} {tr : List Key} {v : Val} {cur' : KVs}
-    (h : applySvc E (fuel + 1) n cur tr = .ok (v, cur')) :
+theorem applySvc_ok_cases {E : Env} {fuel : Nat} {cf n : String} {cur : KVs} {tr : List Key} {v : Val} {cur' : KVs}
+    (h : applySvc E (fuel + 1) cf n cur tr = .ok (v, cur')) :
     (lookup n cur = none ∧ v = .null ∧ cur' = cur) ∨
     (lookup n cur = some .null ∧ v = .null ∧ cur' = cur) ∨
     (∃ svc, lookup n cur = some (.map svc) ∧ lookup "extends" svc = none ∧ v = .map svc ∧ cur' = cur) ∨
     (∃ svc e ref file svcs key same tr' base svcs',
       lookup n cur = some (.map svc) ∧ lookup "extends" svc = some e ∧ parseExtends e = .ok (ref, file) ∧
-      resolveBase E n ref file cur = .ok (svcs, key, same) ∧ trackerAdd tr key = some tr' ∧
-      applySvc E fuel ref svcs tr' = .ok (base, svcs') ∧
+      resolveBase E cf n ref file cur = .ok (svcs, key, same) ∧ trackerAdd tr key = some tr' ∧
+      applySvc E fuel (nextFile cf file) ref svcs tr' = .ok (base, svcs') ∧
       ((base = .null ∧ v = .map svc ∧ cur' = (if same then svcs' else cur)) ∨
        (∃ b m, base = .map b ∧ E.extend b svc = .ok m ∧ v = .map (Val.erase "extends" m) ∧
           cur' = (if same then Val.insert n (.map (Val.erase "extends" m)) svcs' else cur)))) := by
@@ -242,15 +247,15 @@ theorem applySvc_ok_cases {E : Env} {fuel : Nat} {n : String} {cur : KVs} {tr : 
   · cases h
 
 theorem applySvc_sound (E : Env) (hfs : NoNullFS E) :
-    ∀ (fuel : Nat) (n : String) (cur : KVs) (tr : List Key) (orig : KVs) (v : Val) (cur' : KVs),
-      NoNull orig → Inv E orig cur → applySvc E fuel n cur tr = .ok (v, cur') →
+    ∀ (fuel : Nat) (cf n : String) (cur : KVs) (tr : List Key) (orig : KVs) (v : Val) (cur' : KVs),
+      NoNull orig → Inv E orig cur → applySvc E fuel cf n cur tr = .ok (v, cur') →
       (lookup n cur ≠ none → Flat E orig n v) ∧ Inv E orig cur' ∧
       (∀ n', FlatAt E orig cur n' → FlatAt E orig cur' n') := by
   intro fuel
   induction fuel with
-  | zero => intro n cur tr orig v cur' _ _ h; simp [applySvc] at h
+  | zero => intro cf n cur tr orig v cur' _ _ h; simp [applySvc] at h
   | succ fuel ih =>
-    intro n cur tr orig v cur' hnn hi h
+    intro cf n cur tr orig v cur' hnn hi h
     have hnc := hi.noNull hnn
     rcases applySvc_ok_cases h with ⟨h1, _, h3⟩ | ⟨h1, _, _⟩ | ⟨svc, h1, h2, h3, h4⟩ |
       ⟨svc, e, ref, file, svcs, key, same, tr', base, svcs', h1, h2, h3, h4, h5, h6, h7⟩
@@ -263,7 +268,7 @@ theorem applySvc_sound (E : Env) (hfs : NoNullFS E) :
       · -- same-file step
         subst hs; subst hf
         rw [hS] at h6 href
-        obtain ⟨r1, r2, r3⟩ := ih ref cur tr' orig base svcs' hnn hi h6
+        obtain ⟨r1, r2, r3⟩ := ih _ ref cur tr' orig base svcs' hnn hi h6
         have hfb := r1 href
         have hbo : baseMap E orig ref none = some orig := by
           have := (hi.key_iff ref).mp href
@@ -280,7 +285,7 @@ theorem applySvc_sound (E : Env) (hfs : NoNullFS E) :
       · -- cross-file step
         subst hs; subst hf
         have hnS := hfs f svcs hfs'
-        obtain ⟨r1, _, _⟩ := ih ref svcs tr' svcs base svcs' hnS (Inv.refl E svcs) h6
+        obtain ⟨r1, _, _⟩ := ih _ ref svcs tr' svcs base svcs' hnS (Inv.refl E svcs) h6
         have hfb := r1 href
         have hbo : baseMap E orig ref (some f) = some svcs := by
           simp only [baseMap, hfs']
@@ -314,7 +319,7 @@ theorem applyAll_sound (E : Env) (hfs : NoNullFS E) (fuel : Nat) :
     split at h <;> try cases h
     rename_i v S' hs
     have hkn : lookup n orig ≠ none := hk n (List.mem_cons_self ..)
-    obtain ⟨r1, r2, r3⟩ := applySvc_sound E hfs fuel n cur [] orig v S' hnn hi hs
+    obtain ⟨r1, r2, r3⟩ := applySvc_sound E hfs fuel E.mainFile n cur [] orig v S' hnn hi hs
     have hflat := r1 ((hi.key_iff n).mpr hkn)
     obtain ⟨q1, q2, q3⟩ := ih (Val.insert n v S') orig R hnn (r2.insert hflat)
       (fun m hm => hk m (List.mem_cons_of_mem _ hm)) h
